@@ -7,11 +7,19 @@ fn verif_edges_snapshot<L: Copy + Ord>(m: &EdgeMap<L>) -> (r: EdgeMap<L>)
     m.clone()
 }
 
+// std: Option::and (not specified by vstd)
+pub assume_specification<T, U>[Option::<T>::and::<U>](a: Option<T>, b: Option<U>) -> (r: Option<U>)
+    ensures r == (if a.is_some() { b } else { None::<U> });
+
 //@include ghost_pass_bfs.rs
 
 //@impl src/nfa_builder.rs impl<L, V> NfaBuilder<L, V>
 //@mono L=u8
 //@fn build_fails
+//@pre{
+#[verifier::loop_isolation(false)]
+#[verifier::allow_complex_invariants]
+//@}
 //@rules R28 R29 R9 R5 R13b
 //@ret q
 //@head{
@@ -67,10 +75,14 @@ fn verif_edges_snapshot<L: Copy + Ord>(m: &EdgeMap<L>) -> (r: EdgeMap<L>)
         ps = Set::empty();
     }
 //@}
+//@before 1 let verif_snap1{
+    // the link of the state being handled does not change while its children are handled
+    let ghost sf = self.states@[state_id as int].fail;
+//@}
 //@loopiter 3 it3
 //@loop 3{
     invariant pctx(n0), 2 < n0.states@.len() <= u32::MAX as nat + 1, vstd::std_specs::btree::key_obeys_cmp_spec::<u8>(), 1 <= qi <= q@.len(), state_id == q@[qi - 1], 2 <= state_id < n0.states@.len(),
-        fails_inv(n0, *self, q@), bfs_inv(n0, q@, qi - 1, ps),
+        fails_inv(n0, *self, q@), bfs_inv(n0, q@, qi - 1, ps), self.states@[state_id as int].fail == sf,
         ({ let rem = it3.snapshot@.remaining(); let e = nfa_edges(n0, state_id as int);
            &&& rem.no_duplicates()
            &&& forall|i: int| 0 <= i < rem.len() ==> e.contains_key(*(#[trigger] rem[i]).0) && e[*rem[i].0] == *rem[i].1
@@ -79,7 +91,7 @@ fn verif_edges_snapshot<L: Copy + Ord>(m: &EdgeMap<L>) -> (r: EdgeMap<L>)
            &&& forall|c: u8| ps.contains(c) ==> exists|j: int| 0 <= j < it3.index@ && *(#[trigger] rem[j]).0 == c
         }),
 //@}
-//@before 1 let mut fail_id{
+//@loopbody 3{
     let ghost b0 = *self;
     let ghost q0 = q@;
     proof {
@@ -106,7 +118,7 @@ fn verif_edges_snapshot<L: Copy + Ord>(m: &EdgeMap<L>) -> (r: EdgeMap<L>)
 //@}
 //@loop 4{
     invariant pctx(n0), 2 < n0.states@.len() <= u32::MAX as nat + 1, vstd::std_specs::btree::key_obeys_cmp_spec::<u8>(), 1 <= qi <= q@.len(), state_id == q@[qi - 1], 2 <= state_id < n0.states@.len(),
-        fails_inv(n0, *self, q@), bfs_inv(n0, q@, qi - 1, ps),
+        fails_inv(n0, *self, q@), bfs_inv(n0, q@, qi - 1, ps), self.states@[state_id as int].fail == sf,
         0 <= fail_id < n0.states@.len(), fail_id != 1,
         fail_id == 0 || (in_q(q@, fail_id as int) && nfa_depth(n0, fail_id as int) < nfa_depth(n0, state_id as int)),
         forall|r: int| #[trigger] nd_ok(n0, fail_id as int, c, r) ==> fail_ok(n0, child_id as int, r),
@@ -134,8 +146,10 @@ fn verif_edges_snapshot<L: Copy + Ord>(m: &EdgeMap<L>) -> (r: EdgeMap<L>)
 //@}
 //@loopend 3{
     proof {
-        assert(set_fail(b0, *self, child_id as int, new_fail_id));
-        lemma_fails_set(n0, b0, *self, q0, child_id, new_fail_id);
+        // guarded: if the step is not the expected one the loop invariant (not this hint) is what fails
+        if set_fail(b0, *self, child_id as int, new_fail_id) && fail_ok(n0, child_id as int, new_fail_id as int) && q@ == q0.push(child_id) {
+            lemma_fails_set(n0, b0, *self, q0, child_id, new_fail_id);
+        }
         ps = ps.insert(c);
     }
 //@}
@@ -157,6 +171,10 @@ fn verif_edges_snapshot<L: Copy + Ord>(m: &EdgeMap<L>) -> (r: EdgeMap<L>)
     proof { lemma_fails_finish(n0, *self, q@); }
 //@}
 //@fn build_fails_leftmost
+//@pre{
+#[verifier::loop_isolation(false)]
+#[verifier::allow_complex_invariants]
+//@}
 //@rules R28 R29 R9 R5 R13b
 //@ret q
 //@head{
@@ -224,17 +242,18 @@ fn verif_edges_snapshot<L: Copy + Ord>(m: &EdgeMap<L>) -> (r: EdgeMap<L>)
 //@}
 //@before 1 let verif_snap1{
     proof {
-        if ba.states@[state_id as int].output.is_some() {
-            assert(set_fail(ba, *self, state_id as int, 1));
+        if ba.states@[state_id as int].output.is_some() && set_fail(ba, *self, state_id as int, 1) {
             lemma_lm_mark(n0, ba, *self, q@, state_id as int);
         }
         lemma_lm_frame(n0, *self, q@);
     }
+    // the link of the state being handled does not change while its children are handled
+    let ghost sf = self.states@[state_id as int].fail;
 //@}
 //@loopiter 3 it3
 //@loop 3{
     invariant pctx(n0), 2 < n0.states@.len() <= u32::MAX as nat + 1, vstd::std_specs::btree::key_obeys_cmp_spec::<u8>(), 1 <= qi <= q@.len(), state_id == q@[qi - 1], 2 <= state_id < n0.states@.len(),
-        lm_inv(n0, *self, q@), bfs_inv(n0, q@, qi - 1, ps),
+        lm_inv(n0, *self, q@), bfs_inv(n0, q@, qi - 1, ps), self.states@[state_id as int].fail == sf,
         ({ let rem = it3.snapshot@.remaining(); let e = nfa_edges(n0, state_id as int);
            &&& rem.no_duplicates()
            &&& forall|i: int| 0 <= i < rem.len() ==> e.contains_key(*(#[trigger] rem[i]).0) && e[*rem[i].0] == *rem[i].1
@@ -243,7 +262,7 @@ fn verif_edges_snapshot<L: Copy + Ord>(m: &EdgeMap<L>) -> (r: EdgeMap<L>)
            &&& forall|c: u8| ps.contains(c) ==> exists|j: int| 0 <= j < it3.index@ && *(#[trigger] rem[j]).0 == c
         }),
 //@}
-//@before 1 let mut fail_id{
+//@loopbody 3{
     let ghost b0 = *self;
     let ghost q0 = q@;
     proof {
@@ -267,7 +286,7 @@ fn verif_edges_snapshot<L: Copy + Ord>(m: &EdgeMap<L>) -> (r: EdgeMap<L>)
 //@}
 //@loop 4{
     invariant pctx(n0), 2 < n0.states@.len() <= u32::MAX as nat + 1, vstd::std_specs::btree::key_obeys_cmp_spec::<u8>(), 1 <= qi <= q@.len(), state_id == q@[qi - 1], 2 <= state_id < n0.states@.len(),
-        lm_inv(n0, *self, q@), bfs_inv(n0, q@, qi - 1, ps),
+        lm_inv(n0, *self, q@), bfs_inv(n0, q@, qi - 1, ps), self.states@[state_id as int].fail == sf,
         2 <= child_id < n0.states@.len(), nfa_depth(n0, child_id as int) == nfa_depth(n0, state_id as int) + 1,
         0 <= fail_id < n0.states@.len(), fail_id != 1, nfa_depth(n0, fail_id as int) < nfa_depth(n0, state_id as int),
         fail_id == 0 || in_q(q@, fail_id as int),
@@ -288,8 +307,10 @@ fn verif_edges_snapshot<L: Copy + Ord>(m: &EdgeMap<L>) -> (r: EdgeMap<L>)
 //@}
 //@loopend 3{
     proof {
-        assert(set_fail(b0, *self, child_id as int, new_fail_id));
-        lemma_lm_set(n0, b0, *self, q0, child_id, new_fail_id);
+        // guarded: if the step is not the expected one the loop invariant (not this hint) is what fails
+        if set_fail(b0, *self, child_id as int, new_fail_id) && link_ok(n0, child_id as int, new_fail_id as int) && q@ == q0.push(child_id) {
+            lemma_lm_set(n0, b0, *self, q0, child_id, new_fail_id);
+        }
         ps = ps.insert(c);
     }
 //@}
@@ -323,7 +344,7 @@ fn verif_edges_snapshot<L: Copy + Ord>(m: &EdgeMap<L>) -> (r: EdgeMap<L>)
         outs_inv(n0, *self, q@, it1.index@ as int),
         ac_fail(n0) ==> outs_ac(n0, *self, q@, it1.index@ as int),
 //@}
-//@before 1 if let Some({
+//@loopbody 1{
     let ghost b0 = *self;
     let ghost i0 = it1.index@ as int;
     proof {
@@ -334,8 +355,11 @@ fn verif_edges_snapshot<L: Copy + Ord>(m: &EdgeMap<L>) -> (r: EdgeMap<L>)
 //@}
 //@loopend 1{
     proof {
-        lemma_outs_step(n0, b0, *self, q@, i0);
-        if ac_fail(n0) { lemma_outs_ac_step(n0, b0, *self, q@, i0); }
+        // guarded: if the step is not the expected one the loop invariant (not this hint) is what fails
+        if outs_step_rel(n0, b0, *self, q@, i0) {
+            lemma_outs_step(n0, b0, *self, q@, i0);
+            if ac_fail(n0) { lemma_outs_ac_step(n0, b0, *self, q@, i0); }
+        }
     }
 //@}
 //@after 1 for verif_ref1{
